@@ -39,7 +39,9 @@ def Conforms : Kind → Val → Prop
   | .arr k, .list vs => vs.length < 2 ^ 64 ∧ ConformsList k vs
   | .struct fs, .record ms =>
     ms.length < 2 ^ 64 ∧ ConformsPairs fs ms ∧ (ms.map (·.1)).Nodup ∧
-    (fs.all fun f => !f.required || ms.any (·.1 == f.key)) = true
+    (fs.all fun f => !f.required || ms.any (·.1 == f.key)) = true ∧
+    -- the members are held in declaration order (one slot per member of the C++ struct)
+    (fs.map (·.key)).Nodup ∧ (ms.map (·.1)).Sublist (fs.map (·.key))
   | _, _ => False
 def ConformsList : Kind → List Val → Prop
   | _, [] => True
@@ -89,6 +91,55 @@ theorem setKey_new (acc : List (Int × Val)) (k : Int) (v : Val) (h : k ∉ acc.
     simp only [List.mem_map]
     exact ⟨e, he, by simpa using hek⟩
   simp [this]
+
+theorem canon_cons_notin (fs : List Field) (m : Int × Val) (ms : List (Int × Val)) (h : m.1 ∉ fs.map (·.key)) :
+    canon fs (m :: ms) = canon fs ms := by
+  induction fs with
+  | nil => rfl
+  | cons f fs ih =>
+    simp only [List.map_cons, List.mem_cons, not_or] at h
+    have hne : (m.1 == f.key) = false := beq_false_of_ne h.1
+    have hf : (m :: ms).find? (fun e => e.1 == f.key) = ms.find? (fun e => e.1 == f.key) := by
+      simp [List.find?, hne]
+    unfold canon at ih ⊢
+    rw [List.filterMap_cons, List.filterMap_cons, hf, ih h.2]
+
+/-- a record that already is in declaration order is its own canonical form -/
+theorem canon_id (fs : List Field) (ms : List (Int × Val)) (hnd : (fs.map (·.key)).Nodup)
+    (hsub : (ms.map (·.1)).Sublist (fs.map (·.key))) : canon fs ms = ms := by
+  induction fs generalizing ms with
+  | nil =>
+    have : ms = [] := by simpa using hsub
+    subst this; rfl
+  | cons f fs ih =>
+    simp only [List.map_cons, List.nodup_cons] at hnd
+    cases ms with
+    | nil => simp [canon]
+    | cons m ms =>
+      simp only [List.map_cons] at hsub
+      rcases List.sublist_cons_iff.1 hsub with hsub' | ⟨r, hr, hsub'⟩
+      · -- `f` is absent from the record
+        have hnot : f.key ∉ (m :: ms).map (·.1) := fun hin => hnd.1 (hsub'.subset (by simpa using hin))
+        have hfind : (m :: ms).find? (fun e => e.1 == f.key) = none := by
+          rw [List.find?_eq_none]
+          intro e he heq
+          exact hnot (by simp only [List.mem_map]; exact ⟨e, he, by simpa using heq⟩)
+        unfold canon
+        rw [List.filterMap_cons, hfind]
+        exact ih (m :: ms) hnd.2 (by simpa using hsub')
+      · -- the first member is `f`'s
+        simp only [List.cons.injEq] at hr
+        obtain ⟨hk, hr⟩ := hr
+        subst hr
+        have hfind : (m :: ms).find? (fun e => e.1 == f.key) = some m := by simp [List.find?, hk]
+        have hrest : canon fs (m :: ms) = canon fs ms := canon_cons_notin fs m ms (by rw [hk]; exact hnd.1)
+        unfold canon at hrest ⊢
+        rw [List.filterMap_cons, hfind]
+        simp only
+        rw [hrest]
+        have := ih ms hnd.2 hsub'
+        unfold canon at this
+        rw [this]
 
 /-- the three statements proved together by induction on the fuel -/
 def RT (fuel : Nat) : Prop :=
@@ -166,7 +217,7 @@ theorem rt_succ (fuel : Nat) (ih : RT fuel) : RT (fuel + 1) := by
     | struct fs =>
       cases v <;> simp only [Conforms] at hc
       rename_i ms
-      obtain ⟨hlen, hcp, hnd, hreq⟩ := hc
+      obtain ⟨hlen, hcp, hnd, hreq, hfnd, hsub⟩ := hc
       simp only [readVal, toItem]
       have hl2 : (toPairs fs ms).length / 2 = ms.length := by rw [toPairs_length]; omega
       have hfit : (shortest ms.length).fits ((toPairs fs ms).length / 2) := by rw [hl2]; exact shortest_fits _ hlen
@@ -177,6 +228,7 @@ theorem rt_succ (fuel : Nat) (ih : RT fuel) : RT (fuel + 1) := by
       have hn' : needPairs ms + 1 ≤ fuel := by simp only [need] at hn; omega
       rw [Prog.run_bind_ok _ _ _ _ _ (ihC fs ms [] rest hcp (by simpa using hnd) hn')]
       simp only [List.nil_append, hreq, if_true]
+      rw [canon_id fs ms hfnd hsub]
       rfl
   · -- readElems
     intro k vs acc rest hcl hn
